@@ -113,6 +113,14 @@ func elemType(ty types.Type) types.Type {
 	return nil
 }
 
+// elemTypeOrArray is elemType extended to array types (fields of the receiver).
+func elemTypeOrArray(ty types.Type) types.Type {
+	if a, ok := ty.Underlying().(*types.Array); ok {
+		return a.Elem()
+	}
+	return elemType(ty)
+}
+
 // findOutBufs determines the slice parameters the function writes into by index.
 func (t *loopTr) findOutBufs() {
 	var params []types.Object
@@ -142,8 +150,12 @@ func (t *loopTr) findOutBufs() {
 					"a parameter is accepted as an output buffer only in a function that returns no slice", o.Name())
 			}
 		}
-		for _, q := range params {
-			if e := elemType(q.Type()); q != o && e != nil && types.Identical(e, elemType(o.Type())) {
+		others := append([]types.Object{}, params...)
+		if !t.ctor {
+			others = append(others, t.fields...) // the caller may pass a slice of a field array of the receiver
+		}
+		for _, q := range others {
+			if e := elemTypeOrArray(q.Type()); q != o && e != nil && types.Identical(e, elemType(o.Type())) {
 				if !t.set.disjoint[t.name] {
 					t.fail(t.fd, "index assignment to the parameter `%s`: its array may overlap that of `%s` (same element type); "+
 						"accepted only under the explicit assumption `%s!disjoint`", o.Name(), q.Name(), t.fd.Name.Name)
